@@ -48,6 +48,7 @@ def tasks(tier):
     for s in range(nsh):
         out.append(Task('props.bounded_C01:drv_stationary', name='C01/bounded/stationary.%d' % s, shard=s, nshards=nsh, tier=tier, timeout=1500))
     out.append(Task('props.bounded_C01:drv_oracle', name='C01/bounded/oracle', tier=tier, timeout=1500))
+    out.append(Task('props.bounded_C01:drv_initial_t', name='C01/bounded/initial_t', tier=tier, timeout=900))
     return out
 
 
@@ -750,6 +751,34 @@ def drv_stationary(tier, shard, nshards):
             fk += '-time-dependent-driver'
         d.case((nu, g, h, beta, theta0) + (('func',) if via_func else ()), ok,
                dict(nu=nu, gamma=g, h=h, beta=beta, theta0=theta0, T=2.0, n=n, drift_40_80_160=drift, nu_passed_as_function=via_func), fail_key=fk)
+    return d.results()
+
+
+def drv_initial_t(tier):
+    """An epoch integrated from initial_t to T lasts T - initial_t: constant parameters (the *_const_params shortcut) and the same constants
+    passed as functions of time (the general driver) both agree with the integration of the same duration started at 0."""
+    import numpy as np
+    import dadi
+    d = _driver('initial_t', bound='%d draws: grid 20..40 points, duration 0.01..0.5, initial_t 0.05..2, nu 0.2..5, gamma -5..5, h 0.5 or 0.2; '
+                                   'one_pop(phi, xx, T, ..., initial_t=t0) with constants and with constant functions of time against '
+                                   'one_pop(phi, xx, T - t0, ...) started at 0, rtol 1e-7' % (12 if tier == 'quick' else 120))
+    rng = d.rng
+    for i in range(12 if tier == 'quick' else 120):
+        pts = rng.randint(20, 40)
+        xx = dadi.Numerics.default_grid(pts)
+        phi0 = dadi.PhiManip.phi_1D(xx)
+        dur, t0 = rng.uniform(0.01, 0.5), rng.uniform(0.05, 2.0)
+        nu, gamma, h = rng.uniform(0.2, 5.0), rng.uniform(-5, 5), rng.choice([0.5, 0.2])
+        info = dict(pts=pts, duration=dur, initial_t=t0, nu=nu, gamma=gamma, h=h)
+
+        def run(const):
+            kw = dict(nu=nu, gamma=gamma, h=h) if const else dict(nu=lambda t: nu, gamma=lambda t: gamma, h=lambda t: h)
+            ref = np.array(dadi.Integration.one_pop(phi0.copy(), xx, dur, **kw))
+            got = np.array(dadi.Integration.one_pop(phi0.copy(), xx, t0 + dur, initial_t=t0, **kw))
+            err = float(np.max(np.abs(got - ref) / (np.abs(ref) + 1e-300)))
+            return err <= 1e-7, dict(rel_err=err)
+        d.check(('const', i), lambda: run(True), info, fail_key='const-driver-duration-not-T-minus-initial_t')
+        d.check(('func', i), lambda: run(False), info, fail_key='general-driver-duration-not-T-minus-initial_t')
     return d.results()
 
 
